@@ -48,6 +48,12 @@ type bctx struct {
 	rng   *mrand.Rand
 	mode  int // how this step's writes are split into reads of the node (splitChunk)
 	limit time.Duration
+	sent  []sentMsg // the well-framed messages built in this step (for counting the blocks / confirm packets they carry)
+}
+
+type sentMsg struct {
+	code    uint32
+	payload []byte
 }
 
 // send writes x to the node in the pieces of the step's split mode (used by the classes that also have to read).
@@ -84,6 +90,9 @@ func (b *bctx) encFrame(plaintext []byte) []byte {
 }
 
 func (b *bctx) msg(code uint32, payload []byte) []byte {
+	if code == cBlocks || code == cConfirm {
+		b.sent = append(b.sent, sentMsg{code, payload})
+	}
 	pt := make([]byte, 4, 4+len(payload))
 	binary.BigEndian.PutUint32(pt, code)
 	return b.encFrame(append(pt, payload...))
